@@ -367,7 +367,8 @@ class C08(Check):
     driver = "drv_c08"
     theorems = ["Pox.C08.waiter_once", "Pox.C08.waiter_not_early", "Pox.C08.waiter_immediate", "Pox.C08.failure_contained",
                 "Pox.C08.callback_failure_local", "Pox.C08.lifecycle", "Pox.C08.lifecycle_up_when_released",
-                "Pox.C08.lifecycle_down", "Pox.C08.failure_does_not_starve", "Pox.C08.quit_goes_down", "Pox.C08.exec_reach", "Pox.C08.lifecycle_defect"]
+                "Pox.C08.lifecycle_down", "Pox.C08.goUp_delivers", "Pox.C08.failure_does_not_starve", "Pox.C08.rendezvous_never_raises",
+                "Pox.C08.fired_snapshot_is_registry", "Pox.C08.quit_goes_down", "Pox.C08.exec_reach", "Pox.C08.driver_reach", "Pox.C08.lifecycle_defect"]
     anchors = [("pox/core.py", 303, 347),       # quit / _quit
                ("pox/core.py", 386, 470),       # goUp, _get_go_up_deferral, _goUp_stage2, _waiter_notify, hasComponent
                ("pox/core.py", 472, 586),       # registerNew, register, call_when_ready, _try_waiter, _try_waiters
@@ -382,18 +383,20 @@ class C08(Check):
     assumptions = ["waiter callbacks are pairwise distinct objects (entries of _waiters are compared with ==; equal entries would be interchangeable)",
                    "no listener of ComponentRegistered re-enters the core",
                    "goUp() is called at most once per history (boot.py:526 is the only caller)",
-                   "dependencies are given as str, set, or a list/tuple (after repair D30 an empty list/tuple means no dependencies)",
+                   "dependencies are given as str, set, list, tuple or another indexable sequence; any other object counts as one (never registered) name; after repair D30 an empty list/tuple means no dependencies",
                    "liveness statements (fires exactly once, immediately; Down follows GoingDown) are about operations that return: user code that recurses for ever never returns in Python either",
                    "a component name is never re-bound to a different object inside one case (wiring is probed on the registered object)"]
     design_ref = "DESIGN.md §5 C08, §6 D2, Appendix A.1"
     technique = ("Lean 4 proof: inductive invariants over all reachable states of a small-step machine (explicit control stack, exception flag) "
                  "for every operation history and every callback program + differential correspondence of the compiled machine against a fresh POXCore per case "
                  "+ independent property oracle on the real core's observables")
-    level_text = ("Theorems over Model/Core.lean, for all histories and all (even non-terminating) callback programs: waiter_once, waiter_not_early, waiter_immediate "
-                  "(between operations a declared waiter has fired exactly once iff its dependencies are registered), failure_contained / callback_failure_local, "
-                  "lifecycle (GoingUp/Up/GoingDown/Down at most once each, in order, Up with no deferral outstanding), lifecycle_up_when_released, lifecycle_down; "
-                  "lifecycle_defect: the code before repair D2 raises UpEvent twice. Each run re-checks the model against pox/core.py on exhaustive 3+3 interleavings, "
-                  "chained/raising callbacks, every deferral placement, listen_to_dependencies sinks and quit.")
+    level_text = ("Theorems over Model/Core.lean, for all histories, all (even non-terminating) programs of user code and all intermediate states: waiter_once, "
+                  "waiter_not_early (+ fired_snapshot_is_registry), waiter_immediate (whenever an operation has returned, a declared waiter has fired exactly once iff its "
+                  "dependencies are registered), failure_contained / callback_failure_local / rendezvous_never_raises / failure_does_not_starve, lifecycle (GoingUp, Up, "
+                  "GoingDown, Down at most once each, in order, Up only with no deferral outstanding), goUp_delivers + lifecycle_up_when_released (Up exactly once as soon as "
+                  "GoingUp is delivered and no deferral is outstanding), lifecycle_down + quit_goes_down; lifecycle_defect: the code before repair D2 raises UpEvent twice. "
+                  "Each run re-checks the model against pox/core.py on every interleaving of <=3 registers and <=3 waiters over all dependency subsets, chained/raising "
+                  "callbacks, every deferral placement, listen_to_dependencies sinks, quit, and seeded random histories up to 5+5.")
     level_note = ("Trusted: Lean kernel, axioms propext/Classical.choice/Quot.sound, the hand-written model and this harness (fake Thread, stub logger, script interpreter). "
                   "The model follows the code with fixes/D02_core_goup_deferral.diff and fixes/D30_core_call_when_ready_empty.diff applied.")
     rule = ("case = history of top-level ops + scripts of all callbacks/handlers; corpus = every interleaving of ≤3 registers with ≤3 waiters over all dependency subsets, "
@@ -668,7 +671,7 @@ class C08(Check):
         return mkcase(ops, bodies=bodies, sinks=sinks, events=events, **hs)
 
     def generate(self, rng, tier):
-        n = 1200 if tier == "quick" else 30000
+        n = 1200 if tier == "quick" else 60000
         for i in range(n):
             yield self._random_case(rng, big=(i % 3 != 0))
         if tier == "thorough":
@@ -682,9 +685,9 @@ class C08(Check):
     # ------------------------------------------------------------------ implementation / model
     def impl(self, case):
         self.ncases += 1
-        if self.ncases % 500 == 0:
-            gc.collect()                      # fresh cores hold a pipe pair each until collected
-            self.banner_sink.seek(0); self.banner_sink.truncate()
+        if self.ncases % 100 == 0:
+            gc.collect(1)                     # fresh cores hold a pipe pair each until collected; young generations only, the
+            self.banner_sink.seek(0); self.banner_sink.truncate()      # retained results are not rescanned
         with contextlib.redirect_stdout(self.banner_sink):      # banner, autoBindEvents warnings
             return Env(self, case).run()
 
@@ -733,7 +736,17 @@ class C08(Check):
         ops = case["ops"]
         if obs["runaway"]:
             twice = [e[1] for e in log if e[0] == "fired"]
-            return "runaway:%s: more than %d events in one history" % ("callback-reinvoked" if len(twice) != len(set(twice)) else "events", RUNAWAY)
+            return "runaway:%s | more than %d events or %d _try_waiter calls in one history" % (
+                "callback-reinvoked" if len(twice) != len(set(twice)) else "events", RUNAWAY, TW_LIMIT)
+        # ---- D30: an empty list / tuple of dependencies (checked first: the TypeError variant poisons every later register)
+        early_fired = set(e[1] for e in log if e[0] == "fired")
+        for wid, kind, deps, opi in obs["decls"]:
+            m = re.match(r"declare:(list|tuple):0$", kind)
+            if m and wid not in obs["silent"]:
+                end = marks[opi] if opi < len(marks) else len(log)
+                if not any(e[0] == "fired" and e[1] == wid for e in log[:end]):
+                    return "call_when_ready:empty-%s | waiter %d declared with an empty %s is not called (op raised: %s)" % (
+                        m.group(1), wid, m.group(1), obs["op_exc"][opi] if opi < len(obs["op_exc"]) else None)
         # which op does log position p belong to
         def op_of(p):
             for i, m in enumerate(marks):
@@ -745,56 +758,54 @@ class C08(Check):
             if e[0] == "fired":
                 wid = e[1]
                 if wid in fired_at:
-                    return "waiter:fired-twice: waiter %d called again in op %d" % (wid, op_of(p))
+                    return "waiter:fired-twice | waiter %d called again in op %d" % (wid, op_of(p))
                 fired_at[wid] = p
                 if wid not in decls:
-                    return "waiter:fired-undeclared: %d" % wid
+                    return "waiter:fired-undeclared | %d" % wid
                 missing = [d for d in decls[wid][2] if d not in e[2]]
                 if missing:
-                    return "waiter:fired-early: waiter %d called without %s registered" % (wid, ",".join(missing))
+                    return "waiter:fired-early | waiter %d called without %s registered" % (wid, ",".join(missing))
         silent = set(obs["silent"])
         for i, op in enumerate(ops):
             if obs["op_exc"][i] is not None and op["a"] in ("register", "declare", "listen"):
-                kind = ""
-                if op["a"] == "declare": kind = ":%s:%d-deps" % (op.get("ctype"), len(op["deps"]))
-                return "contain:%s%s raised %s to its caller" % (op["a"], kind, obs["op_exc"][i])
+                return "contain:%s-raised:%s | %s raised %s to its caller" % (op["a"], obs["op_exc"][i], op["a"], obs["op_exc"][i])
             comps = set(obs["after"][i]["comps"])
             for wid, d in decls.items():
                 if d[3] > i or wid in silent: continue
                 is_ready = all(x in comps for x in d[2])
                 has_fired = wid in fired_at and fired_at[wid] < marks[i]
                 if is_ready and not has_fired:
-                    return "waiter:not-fired:%s: waiter %d ready after op %d (%s) but never called" % (d[1], wid, i, op["a"])
+                    return "waiter:not-fired | waiter %d (%s) ready after op %d (%s) but never called" % (wid, d[1], i, op["a"])
                 if has_fired and not is_ready:
-                    return "waiter:fired-early: waiter %d" % wid
+                    return "waiter:fired-early | waiter %d" % wid
         # ---- lifecycle
         def positions(name): return [p for p, e in enumerate(log) if e[0] == name]
         gu, up, gd, dn, gud = positions("goingUp"), positions("up"), positions("goingDown"), positions("down"), positions("_goingUpDone")
         ngoup = sum(1 for o in ops if o["a"] == "goUp")
-        if len(gu) > ngoup: return "lifecycle:GoingUpEvent-without-goUp"
+        if len(gu) > ngoup: return "lifecycle:GoingUpEvent-without-goUp | GoingUpEvent raised more often than goUp was called"
         if ngoup <= 1:
             if up and (not gud or up[0] < gud[0]):
-                return "lifecycle:UpEvent-before-GoingUp-delivered"
-            if len(up) > 1: return "lifecycle:UpEvent-twice"
-            if len(gd) > 1: return "lifecycle:GoingDownEvent-twice"
-            if len(dn) > 1: return "lifecycle:DownEvent-twice"
+                return "lifecycle:UpEvent-before-GoingUp-delivered | UpEvent raised before the delivery of GoingUpEvent had finished"
+            if len(up) > 1: return "lifecycle:UpEvent-twice | UpEvent raised %d times" % len(up)
+            if len(gd) > 1: return "lifecycle:GoingDownEvent-twice | GoingDownEvent raised %d times" % len(gd)
+            if len(dn) > 1: return "lifecycle:DownEvent-twice | DownEvent raised %d times" % len(dn)
             for p in up:
-                if log[p][1] != 0: return "lifecycle:UpEvent-with-deferral-outstanding"
-            if gd and (not gu or gd[0] < gu[0]): return "lifecycle:GoingDown-before-GoingUp"
-            if dn and (not gd or dn[0] < gd[0]): return "lifecycle:Down-before-GoingDown"
+                if log[p][1] != 0: return "lifecycle:UpEvent-with-deferral-outstanding | UpEvent raised with %d deferral(s) outstanding" % log[p][1]
+            if gd and (not gu or gd[0] < gu[0]): return "lifecycle:GoingDown-before-GoingUp | GoingDownEvent before GoingUpEvent"
+            if dn and (not gd or dn[0] < gd[0]): return "lifecycle:Down-before-GoingDown | DownEvent before GoingDownEvent"
             if gud:
                 gi = op_of(gud[0])
                 for i in range(gi, len(ops)):
                     if obs["after"][i]["outstanding"] == 0 and not (up and up[0] < marks[i]):
                         if obs["op_exc"][gi] is None:
-                            return "lifecycle:UpEvent-missing: no deferral outstanding after op %d" % i
+                            return "lifecycle:UpEvent-missing | no deferral outstanding after op %d" % i
             for p, e in enumerate(log):
                 if e[0] in ("_quitCalled", "_threadRun") and gu and gu[0] < p:
                     end = marks[op_of(p)] if op_of(p) < len(marks) else len(log)
-                    if not (gd and gd[0] < end): return "lifecycle:GoingDown-missing-after-quit"
+                    if not (gd and gd[0] < end): return "lifecycle:GoingDown-missing-after-quit | quit ran after start-up but GoingDownEvent was not raised in that operation"
             for p in gd:
                 end = marks[op_of(p)] if op_of(p) < len(marks) else len(log)
-                if not (dn and p < dn[0] < end): return "lifecycle:Down-missing-after-GoingDown"
+                if not (dn and p < dn[0] < end): return "lifecycle:Down-missing-after-GoingDown | GoingDownEvent not followed by DownEvent in the same operation"
         # ---- wiring of listen_to_dependencies
         final = set(obs["comps"])
         counts = {}
@@ -808,20 +819,20 @@ class C08(Check):
             is_ready = all(x in final for x in d[2])
             for (kk, attr, comp, ev), n in counts.items():
                 if kk != k: continue
-                if n > 1: return "wiring:handler-bound-twice: sink %d %s" % (k, attr)
-                if not is_ready: return "wiring:bound-before-ready: sink %d %s" % (k, attr)
+                if n > 1: return "wiring:handler-bound-twice | sink %d %s" % (k, attr)
+                if not is_ready: return "wiring:bound-before-ready | sink %d %s" % (k, attr)
             if is_ready:
                 for attr in s["attrs"]:
                     c = handler_component(attr)
                     if c is None or "_" in c or c == "" or c == "core": continue
                     ev = attr[len("_handle_" + c + "_"):]
                     if ev in (case["events"].get(c) or []) and counts.get((k, attr, c, ev), 0) != 1:
-                        return "wiring:handler-not-bound: sink %d %s" % (k, attr)
+                        return "wiring:handler-not-bound | sink %d %s" % (k, attr)
                 if s.get("set_attrs", True) or s.get("short_attrs"):
                     have = obs["sink_attrs"].get(str(ids[0]), [])
                     for c in d[2]:
                         nm = c if s.get("short_attrs") else "_%s_" % c
-                        if c != "core" and nm not in have: return "wiring:attribute-not-set: sink %d %s" % (k, nm)
+                        if c != "core" and nm not in have: return "wiring:attribute-not-set | sink %d %s" % (k, nm)
         return None
 
     def _listen_ids(self, case, obs):
@@ -832,16 +843,7 @@ class C08(Check):
 
     def finding_key(self, case, obs, failure):
         if failure.startswith("harness exception"): return failure[:60]
-        parts = failure.split(":")
-        key = ":".join(parts[:2]).split(" ")[0] if parts[0] in ("lifecycle", "wiring") else ":".join(parts[:2]).strip()
-        if parts[0] == "contain" or failure.startswith("waiter:not-fired:declare"):
-            # the empty-sequence defect (D30): name the container kind
-            m = re.search(r"declare:(list|tuple):0", failure)
-            if m: return "call_when_ready:empty-%s" % m.group(1)
-            if any(a["a"] == "declare" and not a["deps"] and a.get("ctype") in ("list", "tuple") for a in all_acts(case)):
-                return "call_when_ready:empty-sequence-poisons-core"
-            return ":".join(parts[:2]).split(" ")[0]
-        return key.split(" ")[0]
+        return failure.split(" | ")[0]
 
     def nontrivial(self, case, obs):
         log, marks = obs["log"], obs["marks"]
